@@ -901,7 +901,11 @@ impl ASN1Type {
             ASN1Type::ElsewhereDeclaredType(DeclarationElsewhere { identifier, .. }) => {
                 Cow::Borrowed(identifier)
             }
-            ASN1Type::ChoiceSelectionType(_) => todo!(),
+            // a selection type that could not be replaced by its alternative (the CHOICE or the
+            // alternative does not exist) is still asked for its name when errors are reported
+            ASN1Type::ChoiceSelectionType(c) => {
+                Cow::Owned(format!("{} < {}", c.selected_option, c.choice_name))
+            }
             ASN1Type::ObjectIdentifier(_) => Cow::Borrowed(OBJECT_IDENTIFIER),
             ASN1Type::ObjectClassField(ifr) => Cow::Owned(format!(
                 "{INTERNAL_IO_FIELD_REF_TYPE_NAME_PREFIX}{}${}",
